@@ -65,9 +65,12 @@ func (f *Dotimes) Call(s *slip.Scope, args slip.List, depth int) slip.Object {
 			slip.TypePanic(s, depth, "dotimes input var", input[0], "symbol")
 		}
 		sym = slip.Symbol(strings.ToLower(string(sym)))
-		if i, ok2 := ns.Eval(input[1], d2).(slip.Integer); ok2 {
-			max = i.Int64()
-		} else {
+		switch tc := ns.Eval(input[1], d2).(type) {
+		case slip.Integer:
+			max = tc.Int64()
+		case *slip.ReturnResult, *GoTo:
+			return loopExit(tc)
+		default:
 			slip.TypePanic(s, depth, "dotimes input count", input[1], "integer")
 		}
 		if 2 < len(input) {
@@ -106,5 +109,5 @@ func (f *Dotimes) Call(s *slip.Scope, args slip.List, depth int) slip.Object {
 	}
 	ns.UnsafeLet(sym, slip.Fixnum(max))
 
-	return ns.Eval(rform, d2)
+	return loopExit(ns.Eval(rform, d2))
 }
